@@ -2,12 +2,18 @@
 from . import ticksh
 
 PROPERTY = "C14"
-ENGINE_OPTS = dict(nl_mode="exact", timeout_ms=30000)
+NORMAL_FORM_DECIDES = True
+ENGINE_OPTS = dict(nl_mode="exact", timeout_ms=30000, max_decisions=20000)
 EXPLANATION = (
     "LINEAR scales: bounded symbolic execution of the real LinearScale.nice(m) (d3_scale_linearNice = two passes of d3_scale_nice with "
     "d3_scale_niceStep over d3_scale_linearTickRange) on a symbolic domain of either orientation; z3 proves per path that no end point moves "
     "inward, the orientation is kept, each end moves outward by less than two tick steps of the RESULTING domain, and each new end point is an "
-    "integer multiple of step/10. TIME scales: see the calendar configurations (time-*) of this check: TimeScale.nice() on symbolic datetimes."
+    "integer multiple of step/10. TIME scales: the real TimeScale.nice() / nice(count) (tickMethod, d3_scale_nice, time_nice_floor/ceil with the "
+    "skipped() predicate, every interval's floor/ceil/range) on a domain whose earlier end is one of 8 concrete calendar anchors (month end, leap "
+    "day, year end, before the epoch, sub-second offsets; thorough: also fully symbolic) and whose span is symbolic inside each of the 19 windows of "
+    "the code's step table; z3 proves orientation kept, no end moved inward, each end moved outward by less than two tick steps of the ORIGINAL "
+    "domain's ticks (the gaps of TimeScale.ticks on the original domain), and both new ends aligned to the calendar unit the delivered tick "
+    "spacing implies (>= 1 s whole seconds ... >= 365 d 1 January)."
 )
 BOUNDS = {
     "quick": dict(linear="end points in [-1e9,1e9], span in [1e-9,1e12] and >= 1e-6*|end point|; m in {1,2,5,10,default}", time="see DESIGN.md C14"),
@@ -25,7 +31,7 @@ def configs(tier):
 
         c += timeh.nice_configs(tier)
     except ImportError:
-        pass
+        raise
     return c
 
 
